@@ -479,7 +479,7 @@ const SHAPES: &[Shape] = &[
     Shape { name: "GETDEL", tmpl: "K", kws: NOKW }, Shape { name: "INCRBYFLOAT", tmpl: "KF", kws: NOKW },
     Shape { name: "PSETEX", tmpl: "KIV", kws: NOKW }, Shape { name: "EXPIRETIME", tmpl: "K", kws: NOKW },
     Shape { name: "PEXPIRETIME", tmpl: "K", kws: NOKW }, Shape { name: "UNLINK", tmpl: "K", kws: NOKW },
-    Shape { name: "WAIT", tmpl: "II", kws: NOKW }, Shape { name: "SORT", tmpl: "K", kws: &["STORE", "ALPHA", "DESC", "LIMIT"] },
+    Shape { name: "WAIT", tmpl: "II", kws: NOKW }, Shape { name: "SORT", tmpl: "K", kws: &["STORE", "ASC", "ALPHA", "DESC", "LIMIT", "BY", "GET"] },
     Shape { name: "RANDOMKEY", tmpl: "", kws: NOKW }, Shape { name: "RENAME", tmpl: "KK", kws: NOKW },
     Shape { name: "RENAMENX", tmpl: "KK", kws: NOKW },
     // names no grammar knows
